@@ -84,7 +84,7 @@ def run_check(prop, repo, seed, replay=None):
     cmd = [os.path.join(common.VERIF, "check"), prop, "--tier", "quick"] if replay is None else [os.path.join(common.VERIF, "check"), "replay", replay]
     t0 = time.time()
     r = subprocess.run(cmd, cwd=common.VERIF, env=env, stdout=subprocess.PIPE, stderr=subprocess.STDOUT, text=True)
-    viol = [l for l in r.stdout.splitlines() if l.startswith("VIOLATION ")]
+    viol = [l for l in r.stdout.splitlines() if l.startswith("VIOLATION property=")]
     return r.returncode, viol, r.stdout, time.time() - t0
 
 
